@@ -290,6 +290,10 @@ func lockPileRound(r *ev.Run, rc *reach, i int) roundVerdict {
 				if !lp.Lock(first...) {
 					backoffs.Add(1)
 				}
+				// Keep the first set for a moment, so that other
+				// goroutines find it taken whatever the number of
+				// processors is.
+				runtime.Gosched()
 				if len(second) > 0 {
 					for _, k := range perm2[:n2] {
 						held[k]++
@@ -312,6 +316,7 @@ func lockPileRound(r *ev.Run, rc *reach, i int) roundVerdict {
 				if len(held) > 1 {
 					overlaps.Add(1)
 				}
+				runtime.Gosched()
 				for k := range held {
 					locks[k].inside.Add(-1)
 				}
